@@ -161,8 +161,8 @@ func Verif_C07_SingleFlight() {
 	rt.Assert(len(sf.(*flightGroup).calls) == 0, "no call record is retained after its flight has finished")
 }
 
-//verif:entry tier=quick,thorough cover=waited,otherkey,samekeyblocked
-//verif:doc LockedCalls.Do: 2 (quick) / 3 (thorough) goroutines on keys from two; every caller's own fn runs exactly once, same-key executions never overlap, results are the caller's own; optionally one execution blocks forever: callers on the other key still complete.
+//verif:entry tier=quick,thorough cover=waited,otherkey,samekeyblocked,panicked
+//verif:doc LockedCalls.Do: 2 (quick) / 3 (thorough) goroutines on keys from two; every caller's own fn runs exactly once, same-key executions never overlap, results are the caller's own; optionally one execution blocks forever: callers on the other key still complete; optionally one function panics (its caller recovers): every other caller, also on the same key, still completes.
 func Verif_C07_LockedCalls() {
 	lc := NewLockedCalls()
 	gs := 2
@@ -177,11 +177,22 @@ func Verif_C07_LockedCalls() {
 	completedExecs := 0
 	block := make(chan struct{})
 	blocker := rt.Choose("blocker", gs+1) - 1 // -1: nobody blocks
+	panicker := -1                            // this caller's function panics (the caller recovers)
+	if blocker < 0 {
+		panicker = rt.Choose("panicker", gs+1) - 1
+	}
 	for g := 0; g < gs; g++ {
 		g := g
 		key := keys[rt.Choose("key", 2)]
 		gkey[g] = key
 		go func() {
+			defer func() {
+				if p := recover(); p != nil {
+					rt.Cover("panicked")
+					rt.Assert(g == panicker, "only the panicking function's own caller sees the panic")
+					finished[g] = true
+				}
+			}()
 			v, err := lc.Do(key, func() (any, error) {
 				rt.Assert(running[key] == 0, "no two executions for the same key overlap")
 				if completedExecs > 0 {
@@ -195,6 +206,9 @@ func Verif_C07_LockedCalls() {
 				}
 				running[key]--
 				completedExecs++
+				if g == panicker {
+					panic("c07: locked function panicked")
+				}
 				return g, nil
 			})
 			rt.Assert(err == nil && v == any(g), "LockedCalls returns the caller's own result")
